@@ -206,3 +206,24 @@ let handle (x : t) : (int * string list) option =
   match x with
   | L [I 19; k; u; t] -> Some (cmd_unitary k u t)
   | _ -> handle x
+
+(* (20 cap (delta ids...) (received ids...))   RootHop.burst: the delta of a Refilter pushed without waiting into an
+   empty channel of cap slots that nobody reads leaves as many events in it as the model says; which ones depends on
+   the order of a Go map, so the elements are compared only as "distinct members of the delta" *)
+let cmd_hop cap delta recv =
+  let ints x = List.map d_int (match x with L l -> l | _ -> bad "ints") in
+  let cap = d_int cap and delta = ints delta and recv = ints recv in
+  let model = burst (nat_of_int cap) [] delta in
+  let errs = ref [] in
+  (* a delta that fits and is not delivered whole is a failing input for C07 as it stands *)
+  let kind = if List.length delta <= cap then "hopfit" else "hop" in
+  if List.length model <> List.length recv then
+    errs := Printf.sprintf "kind=%s delta=%d cap=%d events-in-channel impl=%d model=%d" kind (List.length delta) cap (List.length recv) (List.length model) :: !errs;
+  if List.exists (fun i -> not (List.mem i delta)) recv then errs := "kind=hop an event that is not in the delta" :: !errs;
+  if List.length (List.sort_uniq compare recv) <> List.length recv then errs := "kind=hop an event twice" :: !errs;
+  (1, List.rev !errs)
+
+let handle (x : t) : (int * string list) option =
+  match x with
+  | L [I 20; cap; delta; recv] -> Some (cmd_hop cap delta recv)
+  | _ -> handle x
